@@ -178,22 +178,31 @@ fn args_part(nat: &mut NativeEnv, ctx: &WorkerCtx, rep: &mut Report) {
                 continue;
             }
         };
-        let exe = match nat.assemble(&text).and_then(|o| nat.link(&o, n)) {
+        // the driver without and with an explicit heap size (`--heap-size`)
+        let heaps: Vec<Option<usize>> = if ctx.tier.thorough() { vec![None, Some(1), Some(64), Some(512)] } else { vec![None, Some(64)] };
+        for heap in heaps {
+        let exe = match nat.assemble(&text).and_then(|o| match heap {
+            None => nat.link(&o, n),
+            Some(h) => nat.link_heap(&o, n, h),
+        }) {
             Ok(e) => e,
             Err(e) => {
                 rep.violation(format!("echo/build/{arity}"), e, json!({"kind": "echo", "arity": arity}));
                 continue;
             }
         };
-        // every tuple over the value set
-        for t in tuples(&vals, arity) {
+        // every tuple over the value set (with an explicit heap size: a slice of them)
+        for (ti, t) in tuples(&vals, arity).into_iter().enumerate() {
+            if heap.is_some() && ti % 7 != 0 {
+                continue;
+            }
             idx += 1;
             if !ctx.mine(idx) {
                 continue;
             }
             rep.count("cases", 1);
             rep.count("evaluations", 1);
-            rep.distinct.push(hash64(&("echo", arity, &t)));
+            rep.distinct.push(hash64(&("echo", arity, &t, heap)));
             let args: Vec<String> = t.iter().map(|v| v.to_string()).collect();
             let run = match nat.run(&exe, &args) {
                 Ok(r) => r,
@@ -232,7 +241,7 @@ fn args_part(nat: &mut NativeEnv, ctx: &WorkerCtx, rep: &mut Report) {
             }
             rep.count("cases", 1);
             rep.count("evaluations", 1);
-            rep.distinct.push(hash64(&("wrongcount", arity, given)));
+            rep.distinct.push(hash64(&("wrongcount", arity, given, heap)));
             let args: Vec<String> = (0..given).map(|i| (i + 1).to_string()).collect();
             match nat.run(&exe, &args) {
                 Ok(run) => {
@@ -253,6 +262,7 @@ fn args_part(nat: &mut NativeEnv, ctx: &WorkerCtx, rep: &mut Report) {
             }
         }
         nat.remove(&exe);
+        }
     }
     // exit status: low eight bits of main's result
     let results: Vec<i64> = vec![0, 1, 255, 256, 257, -1, -256, 1 << 40, i64::MAX, i64::MIN + 1, 1000];
